@@ -135,7 +135,7 @@ func c05responsible(fn *ssa.Function, at ssa.Instruction) []kit.Guard {
 	res := fn.Signature.Results()
 	hasErr := res.Len() > 0 && kit.IsErrorType(res.At(res.Len()-1).Type())
 	for _, ret := range kit.Returns(fn) {
-		if ret.Block() == fn.Recover || (hasErr && !kit.ReturnsNilError(ret)) {
+		if ret.Block() == fn.Recover || (hasErr && c05definiteError(fn, ret)) {
 			continue
 		}
 		for _, g := range kit.GuardsOf(ret) {
@@ -183,7 +183,7 @@ func (cx *c05ctx) rejectsTrailing(n *ssa.Function) []string {
 		}
 		if hasErr {
 			for _, ret := range kit.Returns(fn) {
-				if ret.Block() == fn.Recover || kit.ReturnsNilError(ret) {
+				if ret.Block() == fn.Recover || !c05definiteError(fn, ret) {
 					continue
 				}
 				check(ret, "error return in "+kit.FuncName(fn))
@@ -205,7 +205,10 @@ func (cx *c05ctx) rejectsTrailing(n *ssa.Function) []string {
 					continue // judged at its own site
 				}
 				if _, isDec := cx.decSet[st]; isDec {
-					continue // decodes an already delimited payload
+					if args := c.Common().Args; len(fn.Params) == 0 || len(args) == 0 || args[0] != ssa.Value(fn.Params[0]) {
+						continue // decodes an already delimited payload
+					}
+					// the function's own input handed on unchanged: the callee sees the same tail
 				}
 				visit(st, d+1)
 			}
@@ -217,6 +220,29 @@ func (cx *c05ctx) rejectsTrailing(n *ssa.Function) []string {
 
 // laterCursorUse: after call c in fn the cursor is read again (token primitive or another nested decode).
 func (cx *c05ctx) laterCursorUse(fn *ssa.Function, c *ssa.Call) bool {
+	return cx.laterCursorUseDepth(fn, c, 0)
+}
+
+func (cx *c05ctx) laterCursorUseDepth(fn *ssa.Function, c *ssa.Call, depth int) bool {
+	// the nested decode sits in a helper that works on its caller's cursor: what the callers read
+	// after the helper returns also follows the nested message
+	if depth < 2 {
+		takesCursor := cx.rMeth[fn]
+		for _, prm := range fn.Params {
+			if pt, ok := prm.Type().(*types.Pointer); ok && types.Identical(pt.Elem(), cx.rT) {
+				takesCursor = true
+			}
+		}
+		if takesCursor {
+			for _, site := range cx.p.StaticCallers(fn) {
+				if sc, ok := site.(*ssa.Call); ok && kit.FuncPkgPath(sc.Parent()) == kit.PkgPath("internal/protocol") {
+					if cx.laterCursorUseDepth(sc.Parent(), sc, depth+1) {
+						return true
+					}
+				}
+			}
+		}
+	}
 	for _, o := range kit.Calls(fn) {
 		oi, _ := o.(ssa.Instruction)
 		if oi == nil || o == ssa.CallInstruction(c) {
@@ -224,7 +250,8 @@ func (cx *c05ctx) laterCursorUse(fn *ssa.Function, c *ssa.Call) bool {
 		}
 		st := kit.CalleeOf(o).Static
 		_, isTail := cx.tailArg(o)
-		if (st != nil && cx.rMeth[st] && c05tokenKind(cx, st) != "") || isTail {
+		readsCursor := st != nil && cx.rMeth[st] && (c05tokenKind(cx, st) != "" || cx.readsTokens(st, 0))
+		if readsCursor || isTail {
 			if kit.CanReachAvoiding(c, oi, nil) && !kit.Precedes(oi, c) {
 				return true
 			}
@@ -358,7 +385,7 @@ func (cx *c05ctx) ruleR6() {
 		rejected := ""
 		checked := false
 		for _, ret := range kit.Returns(dec) {
-			if ret.Block() == dec.Recover || kit.ReturnsNilError(ret) {
+			if ret.Block() == dec.Recover || !c05definiteError(dec, ret) {
 				continue
 			}
 			for _, g := range c05responsible(dec, ret) {
@@ -385,3 +412,72 @@ func (cx *c05ctx) ruleR6() {
 }
 
 var _ = types.Typ
+
+// readsTokens: the reader method (a helper, not a primitive) reads from the cursor through primitives
+// or nested decodes, directly or through other helpers.
+func (cx *c05ctx) readsTokens(m *ssa.Function, d int) bool {
+	if m == nil || m.Blocks == nil || d > 3 {
+		return false
+	}
+	for _, c := range kit.Calls(m) {
+		st := kit.CalleeOf(c).Static
+		if st == nil {
+			continue
+		}
+		if _, isTail := cx.tailArg(c); isTail {
+			return true
+		}
+		if cx.rMeth[st] && (c05tokenKind(cx, st) != "" || (st != m && cx.readsTokens(st, d+1))) {
+			return true
+		}
+	}
+	return false
+}
+
+// c05definiteError: the return certainly carries a non-nil error: a freshly built error or a sentinel,
+// or a field/variable that a dominating guard has just found non-nil. "return x, r.err" at the end of a
+// decoder is not one: it is the success return whenever r.err is nil.
+func c05definiteError(fn *ssa.Function, ret *ssa.Return) bool {
+	n := len(ret.Results)
+	if n == 0 || !kit.IsErrorType(fn.Signature.Results().At(n-1).Type()) {
+		return false
+	}
+	ev := kit.ReturnResult(ret, n-1)
+	if kit.IsNilConst(ev) {
+		return false
+	}
+	switch t := ev.(type) {
+	case *ssa.Call, *ssa.MakeInterface, *ssa.Extract:
+		// result of a constructor / wrapped error; an Extract of a call that was checked non-nil
+		if ex, ok := t.(*ssa.Extract); ok {
+			for _, g := range kit.GuardsOf(ret) {
+				if x, trueMeansNil, ok := kit.IsErrNilCheck(g.Cond); ok && x == ssa.Value(ex) && trueMeansNil != g.Polarity {
+					return true
+				}
+			}
+			return false
+		}
+		return true
+	case *ssa.UnOp:
+		if t.Op != token.MUL {
+			return false
+		}
+		if _, isGlobal := t.X.(*ssa.Global); isGlobal {
+			return true
+		}
+		f, _ := kit.LoadedField(t)
+		for _, g := range kit.GuardsOf(ret) {
+			x, trueMeansNil, ok := kit.IsErrNilCheck(g.Cond)
+			if !ok || trueMeansNil == g.Polarity {
+				continue
+			}
+			if x == ev {
+				return true
+			}
+			if f2, _ := kit.LoadedField(x); f != nil && f2 == f {
+				return true
+			}
+		}
+	}
+	return false
+}
